@@ -249,7 +249,7 @@ class SigmaFilter(SigmaRuleBase):
             return prefix + "_" + token
 
         filter_condition = re.sub(
-            r"[a-zA-Z*][a-zA-Z0-9*_-]*",
+            r"[a-zA-Z0-9_*][a-zA-Z0-9*_-]*",
             _replace_token,
             self.filter.condition[0],
         )
